@@ -349,6 +349,34 @@ Example C12_nonvacuous_script :
 Proof. exact ex_script. Qed.
 Print Assumptions C12_nonvacuous_script.
 
+(* ---- the migration hand-off end to end -------------------------------------------------------
+   migrate_exchange old new0 localm srv: the old client writes infoMigrate into the pipe
+   (MigrateProfile); LoadContext (a fresh Session new0 in a process whose own machine is localm) reads
+   it, makes the migrated ID the process identity and snapshots the local machine with THAT ID as its
+   Device; its MvMigrate result (infoSyncMigrate) is absorbed by the server-side session srv.
+   The new client holds the migrated ID as Session.ID and as Device.ID, the old key material, the old
+   settings and proxy list; the server's view of device (hence Device.ID) and settings is the new client's. *)
+Theorem C12_migration_identity :
+  forall old new0 localm srv,
+  wf infoMigrate old = true -> wf_machine localm = true ->
+  exists ns srv', migrate_exchange old new0 localm srv = Ok (ns, proxies_of true old, srv') /\
+    s_id ns = s_id old /\ m_id (s_dev ns) = s_id old /\ s_keys ns = s_keys old /\
+    s_jitter ns = s_jitter old /\ s_sleep ns = s_sleep old /\
+    s_kill ns = norm_kill (s_kill old) /\ s_work ns = norm_work_opt (s_work old) /\
+    s_dev srv' = s_dev ns /\ s_jitter srv' = s_jitter ns /\ s_sleep srv' = s_sleep ns /\
+    s_kill srv' = norm_kill (s_kill ns) /\ s_work srv' = norm_work_opt (s_work ns) /\
+    s_id srv' = s_id srv.
+Proof. exact migrate_identity. Qed.
+Print Assumptions C12_migration_identity.
+
+Example C12_nonvacuous_migration :
+  wf infoMigrate ex_session = true /\ wf_machine (s_dev ex_receiver) = true /\
+  (exists ns srv', migrate_exchange ex_session ex_receiver (s_dev ex_receiver) ex_receiver = Ok (ns, proxies_of true ex_session, srv') /\
+     m_id (s_dev ns) = s_id ex_session /\ m_id (s_dev srv') = s_id ex_session /\ zlist_eqb (m_id (s_dev ex_receiver)) (s_id ex_session) = false /\
+     settings_eqb srv' ex_session = true /\ length (proxies_of true ex_session) = 1%nat).
+Proof. exact ex_migration. Qed.
+Print Assumptions C12_nonvacuous_migration.
+
 (* ---- non-vacuity ---------------------------------------------------------------------------
    a concrete client session (two interfaces, a 300-byte host name, kill date, work hours, an
    active proxy, keys) satisfies wf for all six kinds and exact_settings; its settings differ from
